@@ -19,7 +19,7 @@ theorem C08_pcf_is_spec (j : Json) (n : Nat) (S : SchemaMut)
     (hparse : parseJson j n = .ok S) (hnf : noForwardRefs j = true) :
     ∃ c, canon none j = some c ∧
       ∀ fuel, n + 2 ≤ fuel → canonicalForm S fuel = .ok (print c) := by
-  obtain ⟨raw, k, st, hraw, hreg, -, hS, -⟩ := C07_parse_ok j n S hparse
+  obtain ⟨raw, k, st, -, hraw, hreg, -, hS, -⟩ := C07_parse_ok j n S hparse
   obtain ⟨hcanon, hscan⟩ := raw_of_json_spec hraw none
   unfold noForwardRefs at hnf
   rw [hscan] at hnf
